@@ -22,7 +22,6 @@ const prelude = "SecRuleEngine On\n" +
 	"SecResponseBodyAccess On\n" +
 	"SecResponseBodyMimeType text/plain application/json text/xml\n" +
 	"SecRequestBodyLimit 256\n" +
-	"SecRequestBodyInMemoryLimit 128\n" +
 	"SecRequestBodyLimitAction ProcessPartial\n" +
 	"SecResponseBodyLimit 256\n" +
 	"SecResponseBodyLimitAction ProcessPartial\n" +
@@ -291,7 +290,7 @@ func genActions(e *emitter, vars []string) {
 		// a macro naming every variable as the value of every action
 		for _, vn := range vars {
 			for ti, t := range tmpl {
-				if ti > 1 && !e.thorough {
+				if ti > 0 && !e.thorough {
 					break
 				}
 				e.holeAt(fmt.Sprintf("action-macro:%s:t%d", name, ti), t(name+":%{"+vn+".k}"), false, false)
@@ -426,6 +425,9 @@ func genVariables(e *emitter, vars []string) {
 			}
 			fmt.Fprintf(&sb, "SecRule %s \"@rx (.)\" \"id:6,phase:5,pass,capture,multiMatch,t:none,t:length,setvar:tx.c=%%{tx.1}\"", sel)
 			e.holeAt("variable:"+v, sb.String(), false, false)
+			if !e.thorough {
+				continue
+			}
 			// edits on the single-rule form
 			e.holeAt("variable1:"+v, fmt.Sprintf("SecRule %s \"@unconditionalMatch\" \"id:1,phase:5,pass,msg:'%%{MATCHED_VAR_NAME}'\"", sel), false, v == "ARGS" || v == "XML" || v == "JSON" || v == "TX" || v == "REQUEST_HEADERS")
 			// as the target added or excluded afterwards
